@@ -21,11 +21,8 @@ def optN : Option Nat → String
   | none => "err"
 
 def mkSpec (spe sps target maxc lookahead minChurn quot : UInt64) : Spec :=
-  { ALTAIR_FORK_EPOCH := 0, ALTAIR_FORK_VERSION := 0, BELLATRIX_FORK_EPOCH := 0,
-    BELLATRIX_FORK_VERSION := 0, CAPELLA_FORK_EPOCH := 0, CHURN_LIMIT_QUOTIENT := quot,
-    DENEB_FORK_EPOCH := 0, DENEB_FORK_VERSION := 0, ELECTRA_FORK_EPOCH := 0,
-    ELECTRA_FORK_VERSION := 0, FULU_FORK_VERSION := 0, GENESIS_FORK_VERSION := 0,
-    MAX_COMMITTEES_PER_SLOT := maxc, MAX_SEED_LOOKAHEAD := lookahead,
+  { (default : Spec) with
+    CHURN_LIMIT_QUOTIENT := quot, MAX_COMMITTEES_PER_SLOT := maxc, MAX_SEED_LOOKAHEAD := lookahead,
     MIN_PER_EPOCH_CHURN_LIMIT := minChurn, SECONDS_PER_SLOT := sps, SLOTS_PER_EPOCH := spe,
     TARGET_COMMITTEE_SIZE := target }
 
@@ -45,8 +42,8 @@ def c19Line (line : String) : String :=
   | some "isqrt", [n] => rU (IntegerSquareroot driverFuel n) ++ " | " ++ okN (Spec.isqrt n.toNat)
   | some "ispow2", [n] => rB (.ok (IsPowerOfTwo n)) ++ " | ok " ++ boolStr (Spec.isPow2 n.toNat)
   | some "nextpow2", [n] => rU (.ok (NextPowerOfTwo n)) ++ " | " ++ okN (Spec.nextPow2U64 n.toNat)
-  | some "maxu64", [a, b] => rU (.ok (MaxU64 a b)) ++ " | " ++ okN (Nat.max a.toNat b.toNat)
-  | some "minu64", [a, b] => rU (.ok (MinU64 a b)) ++ " | " ++ okN (Nat.min a.toNat b.toNat)
+  | some "maxu64", [a, b] => rU (.ok (MaxU64 a b)) ++ " | " ++ okN (max a.toNat b.toNat)
+  | some "minu64", [a, b] => rU (.ok (MinU64 a b)) ++ " | " ++ okN (min a.toNat b.toNat)
   | some "timetoslot", [sps, t, g] =>
     rU (TimeToSlot (mkSpec 1 sps 1 1 1 1 1) t g) ++ " | " ++ okN (Spec.timeToSlot sps.toNat t.toNat g.toNat)
   | some "timeatslot", [sps, s, g] =>
